@@ -225,6 +225,8 @@ def run(rep, repo, tier):
         rep.rule(k, v)
     rep.assumptions += ['project ids are >= 1 (so "0" in the matching line means unassigned) and student i has studentID i+1, student_index i (decided by C10)',
                         'the reported pairs form a matching: at most one pair per student (C01)']
+    from ..defined import check_defined
+    check_defined(rep, repo, 'C11.R3', [repo.method('Model', 'get_results')], 'result rendering')
     # R5: the list
     fpa = repo.method('Model', '_get_pair_assignments')
     try:
